@@ -1693,6 +1693,12 @@ int ov_pcm_seek_page(OggVorbis_File *vf,ogg_int64_t pos){
               return ov_raw_seek(vf,result);
             }
           }
+          /* rewound to the start of the link's data without finding
+             the page this packet begins on: broken stream.  (Falling
+             through would examine an unset packet and could return a
+             file offset as the 'error code'.) */
+          result=OV_EBADPACKET;
+          goto seek_error;
         }
         if(result<0){
           result = OV_EBADPACKET;
